@@ -27,6 +27,7 @@ latest sid the server issued to transport T on namespace ns"):
   ['rooms', SID, ns]
   ['save_session', SID, ns, value] ['get_session', SID, ns]
   ['session_block', SID, ns, updates, [fresh_session, more_updates]?]
+  ['heartbeat', T]       one step of engine.io's ping task for the transport
   ['call', token, SID, ns, data, timeout, script]
 """
 import asyncio
@@ -475,6 +476,8 @@ class Runner:
             elif kind == 'get_session':
                 res['ret'] = d.api('get_session', self.sid_of(op[1]),
                                    namespace=op[2])
+            elif kind == 'heartbeat':
+                res['ret'] = self._heartbeat(self.T[op[1]])
             elif kind == 'save_session':
                 res['ret'] = d.api('save_session', self.sid_of(op[1]),
                                    op[3], namespace=op[2])
@@ -691,6 +694,49 @@ class Runner:
         if t is not None and self._held:
             out['_call_frames'] = {T: list(self._held)}
         return out
+
+    def _heartbeat(self, t):
+        """One step of engine.io's heartbeat for a transport: the task that
+        python-engineio schedules for every connection (Socket._send_ping:
+        sleep ping_interval, then queue a PING), with the sleep skipped.
+        Returns how many PING packets it queued and what it raised."""
+        from engineio import packet as eio_packet
+        if not t.alive or t.socket.closed or t.socket.closing:
+            return 'transport has ended'
+        d = self.d
+        eio = d.eio
+        q = t.socket.queue
+        items = getattr(q, '_queue', None)
+        if items is None:
+            items = q.queue
+
+        def pings():
+            return len([p for p in list(items) if p is not None and
+                        p.packet_type == eio_packet.PING])
+        before = pings()
+        err = None
+        if d.is_async:
+            async def nosleep(seconds=0):
+                return None
+            eio.sleep = nosleep
+
+            async def go():
+                await t.socket._send_ping()
+            try:
+                d.run(go())
+            except Exception as e:
+                err = type(e).__name__
+            finally:
+                eio.__dict__.pop('sleep', None)
+        else:
+            eio.sleep = lambda seconds=0: None
+            try:
+                t.socket._send_ping()
+            except Exception as e:
+                err = type(e).__name__
+            finally:
+                eio.__dict__.pop('sleep', None)
+        return {'pings_queued': pings() - before, 'raised': err}
 
     def _session_block(self, sid, ns, updates, then=None):
         """then = [fresh_session, more_updates]: inside the block, after the
